@@ -21,7 +21,10 @@ import (
 	"fmt"
 	"net"
 	"net/netip"
+	"os"
+	"path/filepath"
 	"sort"
+	"strconv"
 	"strings"
 	"sync"
 	"time"
@@ -380,6 +383,7 @@ type stubT struct {
 	ttl                           uint32
 	up                            []optT
 	upHas                         bool
+	upLead                        [][]optT // options of further OPT records put in FRONT of the regular one
 	ans                           int
 	respCD                        string   // t | f: CD bit of the next response instead of mirroring the query's (a hop that does not mirror CD)
 	kind                          string   // a | nd | nx: positive answer, NODATA, NXDOMAIN (SOA serial = answer id)
@@ -514,6 +518,14 @@ func (s *stubT) ServeDNS(ctx context.Context, ch *middleware.Chain) {
 			}
 		} else {
 			m.Answer = []dns.RR{&dns.A{Hdr: dns.RR_Header{Name: q.Name, Rrtype: dns.TypeA, Class: dns.ClassINET, Ttl: s.ttl}, A: ansIP(s.ans)}}
+		}
+		for _, lo := range s.upLead {
+			o := new(dns.OPT)
+			o.Hdr.Name = "."
+			o.Hdr.Rrtype = dns.TypeOPT
+			o.SetUDPSize(1232)
+			o.Option = buildOpts(lo)
+			m.Extra = append(m.Extra, o)
 		}
 		if s.upHas {
 			o := new(dns.OPT)
@@ -742,6 +754,33 @@ func fallbackServer() *fbServer {
 	return fb
 }
 
+// loadConfigFile writes the [ecs] block and the cache knobs of cfg as the TOML an
+// operator would write and reads it back through config.Load.
+func loadConfigFile(cfg *config.Config) (*config.Config, error) {
+	dir := filepath.Join(os.Getenv("VERIF_DIR"), "build", "tmp-c19")
+	if os.Getenv("VERIF_DIR") == "" {
+		dir = filepath.Join(os.TempDir(), "verif-c19")
+	}
+	if err := os.MkdirAll(dir, 0o750); err != nil {
+		return nil, err
+	}
+	path := filepath.Join(dir, fmt.Sprintf("sdns-%d.conf", os.Getpid()))
+	var nets []string
+	for _, n := range cfg.ECS.ClientNetworks {
+		nets = append(nets, strconv.Quote(n))
+	}
+	text := fmt.Sprintf("version = %q\ndirectory = %q\nipv6access = true\ncachesize = %d\nexpire = %d\nprefetch = %d\ncookiesecret = %q\nnsid = %q\n"+
+		"[ecs]\nenabled = %v\nforward_v4 = %d\nforward_v6 = %d\nmin_scope_v4 = %d\nmin_scope_v6 = %d\nclient_networks = [%s]\ncache_limit_ttl = \"%ds\"\n",
+		config.VerifC19ConfigVer(), dir, cfg.CacheSize, cfg.Expire, cfg.Prefetch, cfg.CookieSecret, cfg.NSID,
+		cfg.ECS.Enabled, cfg.ECS.ForwardV4Max, cfg.ECS.ForwardV6Max, cfg.ECS.MinScopeV4, cfg.ECS.MinScopeV6, strings.Join(nets, ", "),
+		int(cfg.ECS.CacheLimitTTL.Duration/time.Second))
+	if err := os.WriteFile(path, []byte(text), 0o600); err != nil {
+		return nil, err
+	}
+	defer os.Remove(path)
+	return config.Load(path, "verif")
+}
+
 func renderPolicy(p *ecs.Policy) string {
 	if p == nil {
 		return "nil"
@@ -749,7 +788,7 @@ func renderPolicy(p *ecs.Policy) string {
 	return fmt.Sprintf("%s,%d,%d,%d,%d,n%d", vlib.B(p.Enabled), p.ForwardV4Max, p.ForwardV6Max, p.MinScopeV4, p.MinScopeV6, len(p.ClientNetworks))
 }
 
-func pipeNew(f []string) vlib.Res {
+func pipeNew(f []string, viaLoad bool) vlib.Res {
 	if pipe != nil {
 		pipe.ca.Stop()
 	}
@@ -763,6 +802,14 @@ func pipeNew(f []string) vlib.Res {
 	cfg.ECS = config.ECSConfig{Enabled: spec.en, ForwardV4Max: uint8(spec.f4), ForwardV6Max: uint8(spec.f6),
 		MinScopeV4: uint8(spec.m4), MinScopeV6: uint8(spec.m6), ClientNetworks: netTexts(spec.nets),
 		CacheLimitTTL: config.Duration{Duration: time.Duration(capS) * time.Second}}
+	if viaLoad {
+		// the route the server takes at start: the operator's FILE through config.Load
+		loaded, err := loadConfigFile(cfg)
+		if err != nil {
+			return vlib.Res{Impl: "load-error", Oracle: fail("load/config-file-rejected", "%v", err)}
+		}
+		cfg = loaded
+	}
 	p := &pipeT{spec: spec, cap: capS, ed: edns.New(cfg), ca: cache.New(cfg), st: &stubT{}, ledger: map[int]*ansRec{}}
 	cache.VerifC19HoldPrefetch(p.ca)
 	// production wiring: the internal sub-pipeline (edns, cache, upstream) and the
@@ -811,10 +858,17 @@ func pipeQ(f []string) vlib.Res {
 	p := pipe
 	c, proto, qid, cd := parseClient(f[0]), f[1], vlib.Atoi(f[2]), f[3] == "t"
 	ttl := vlib.Atoi(f[5])
-	uopts, uhas := parseOpts(f[6])
+	// "<A>+<B>": the downstream response carries several OPT records, in this order
+	upParts := strings.Split(f[6], "+")
+	uopts, uhas := parseOpts(upParts[len(upParts)-1])
 	ans := vlib.Atoi(f[7])
 	st := p.st
 	st.ttl, st.up, st.upHas, st.ans, st.kind = uint32(ttl), uopts, uhas, ans, f[8]
+	st.upLead = nil
+	for _, a := range upParts[:len(upParts)-1] {
+		lo, _ := parseOpts(a)
+		st.upLead = append(st.upLead, lo)
+	}
 	before := st.ansCalls
 	name := fmt.Sprintf("q%d.c19.test.", qid)
 	if len(f) > 9 { // a name below the (possibly denied) d.z<k>, see "pipe pq"
@@ -1274,6 +1328,10 @@ func exec(op string) vlib.Res {
 			}
 		}
 		return vlib.Res{Impl: renderPrefix(p), Oracle: or}
+	case "fwd new":
+		return fwdNew(a)
+	case "fwd q":
+		return fwdQ(a)
 	case "l3 new":
 		return l3New(a)
 	case "l3 q":
@@ -1281,7 +1339,9 @@ func exec(op string) vlib.Res {
 	case "l3 race":
 		return l3Race(a)
 	case "pipe new":
-		return pipeNew(a)
+		return pipeNew(a, false)
+	case "pipe load":
+		return pipeNew(a, true)
 	case "pipe q":
 		return pipeQ(a)
 	case "pipe age":
